@@ -4,7 +4,7 @@ from common import *
 import build_repo
 
 LEVEL = "proof"
-RULE = ("correspondence: gwb-dat built from the tree is run on generated worlds and .dat files (dim 2/3, 0-3 compositions, 0-2 grain compositions x 0-3 grains, convert spherical, comma or "
+RULE = ("correspondence: gwb-dat built from the tree is run on generated worlds and .dat files (dim 2/3, 0-3 compositions, 0-4 grain compositions x 0-3 grains, convert spherical, comma or "
         "space separated, option lines at the top / between rows / at the bottom, comment lines); its header must be the Lean model's header, the option lines must be interpreted "
         "as the model's datOptions does, and every cell of every row must be the text of the library value in the slot the model's row table names (library values obtained in-process "
         "through the harness, formatted like operator<<(double)). oracle (statement-level, independent of the model): each cell is compared with the library value of the property "
@@ -65,7 +65,7 @@ def session(seed, tier, n_worlds):
     for wi, (path, w, g) in enumerate(worlds):
         has_cross = "cross section" in w
         dim = 2 if (has_cross and rng.random() < 0.5) else 3
-        comps, gcomps, ngr = rng.choice([0, 1, 2, 3]), rng.choice([0, 0, 1, 2]), rng.choice([0, 1, 2, 3])
+        comps, gcomps, ngr = rng.choice([0, 1, 2, 3]), rng.choice([0, 0, 1, 2, 3, 4]), rng.choice([0, 1, 2, 3])
         convert = dim == 3 and g.spherical and rng.random() < 0.6
         rows, queries = [], []
         if dim == 2:
